@@ -2,28 +2,39 @@
 
 A modular effect analysis over the ``ast`` of the REAL classes / functions of ``quimb/tensor`` (re-read from the source
 tree on every run; ``VERIF_REPO`` overrides ``/repo``) plus a reflection pass (``inspect`` over the live classes' MRO)
-for the pairing of the ``name`` / ``name_`` spellings.
+for the pairing of the ``name`` / ``name_`` spellings.  Nothing here copies or paraphrases a function body.
 
 Abstract domain (per local name, flow sensitive, joined at merges)::
 
     OTHER            not the receiver (fresh object, copy, unrelated value)
-    SAFE{q}          the original receiver object only if the boolean flag parameter q (``inplace``) is true,
-                     otherwise a copy -- this is what ``X = self if inplace else self.copy()`` evaluates to
+    SAFE{q,...}      the original receiver object only if one of the listed conditions holds (q = a boolean flag
+                     parameter such as ``inplace``; also ``x is not None`` style atoms), otherwise a copy -- this is
+                     what ``X = self if inplace else self.copy()`` evaluates to
     ORIG             (possibly) the original receiver whatever the flag
     depth 0/1/2/3    the object itself / a part reached directly through attributes, subscripts, iteration (shares
                      storage) / a value that came out of a fresh container or a call and may be a part / a fresh
-                     container whose elements may be parts
+                     container, view or helper object holding parts
 
-plus path facts about the flag parameters (``if inplace:`` ... ``if not inplace: return``).  A *mutation event* is
-an attribute / subscript / augmented assignment, ``del``, a container mutator call, or a call whose callee summary says
-``modifies`` the parameter the value is bound to.  Summaries ``pure-on-receiver`` / ``modifies-receiver`` /
-``modifies-receiver-iff-<flag>`` and the abstract return value are DERIVED for every (function, parameter) that is
-reached, by fixpoint over the call graph; declared leaf summaries (the design's list) are joined in and their
-consistency with the derived ones is itself an obligation (O4).  Obligation of a function with an ``inplace``
-parameter (O1+O2+O4 at once): *no certain mutation event on a value of level ORIG* -- i.e. every mutating use of the
-receiver is dominated by the copy idiom / a delegation ``inplace=inplace`` / a test implying ``inplace``.
+plus path facts (``if inplace:``, ``if not inplace: return``, ``while``, and/or/not, ``x is None``).  A *mutation event*
+is an attribute / subscript / augmented assignment, ``del``, ``setattr``, a container mutator call on a part, or a call
+whose callee summary says it modifies the parameter the value is bound to (receiver, positional, keyword, through a
+bound-method reference, a lambda, a closure, a class-qualified call, ``super()``, a module-level dispatch table).
+For every (function, parameter) reached, a summary {pure-on-receiver, modifies-receiver, modifies-receiver-iff-<flag>}
+(+ the same restricted to writes that reach parts, + the abstract return value, per tuple position) is DERIVED by
+fixpoint over the call graph; the declared leaf summaries of the design are joined in, and that each declared leaf is
+also derived as a mutator is itself an obligation (``::leaf-summary-consistent``, O4).
 
-Nothing here copies or paraphrases a function body: the analysis walks the real AST.
+Obligations
+  * one per function with an ``inplace`` parameter, ``file::Class.method::frame-<rule>`` with rule in {idiom,
+    delegates, guarded, constructs-new, neither}: no certain mutation event on a value that may be the original when
+    ``inplace`` is false (O1 the idiom / a delegation ``inplace=inplace`` / a test implying the flag dominates every
+    mutating use; O2 nothing writes to the original name, its aliases, parts or views afterwards; O4 every call site
+    agrees with the callee's summary).  failed => ``model`` = the offending statement (file, line, source).
+    unknown => pattern not recognised / flag value not decidable -- never a violation.
+  * ``file::alias-pairing[Class.name_]`` (O3, reflection): ``name_`` is a partialmethod(f, inplace=True) of exactly the
+    function (and presets) the SAME class resolves ``name`` to.
+  * ``quimb/tensor::inplace-census``: counts per rule, fixpoint rounds, number of summaries / call sites, and the list
+    of everything that was assumed pure because it could not be resolved.
 """
 from __future__ import annotations
 
@@ -70,6 +81,7 @@ IMMUTABLE_ATTRS = {"exponent", "inds", "shape", "dtype", "ndim", "size", "nsites
                    "Lx", "Ly", "Lz", "cyclic", "site_ind_id", "site_tag_id", "upper_ind_id", "lower_ind_id",
                    "_site_ind_id", "_site_tag_id", "_upper_ind_id", "_lower_ind_id", "left_inds", "backend",
                    "x_tag_id", "y_tag_id", "z_tag_id", "_NDIMS", "__class__", "__name__"}
+SHARED_CONTAINER_FIELDS = {"tensor_map", "tensors", "ind_map", "tag_map"}
 CONTAINER_MUTATORS = {"append", "add", "pop", "update", "clear", "discard", "remove", "setdefault", "extend", "insert",
                       "popitem", "sort", "reverse", "fill", "appendleft", "popleft", "popright", "difference_update",
                       "intersection_update", "symmetric_difference_update", "move_to_end", "resize", "itemset",
@@ -1263,6 +1275,15 @@ class Intra:
         kwvals = [(k.arg, self.ev(k.value, st)) for k in e.keywords]
         allv = argvals + [v for _, v in kwvals]
         self.callsites += 1
+        lams = [a for a in list(e.args) + [k.value for k in e.keywords] if isinstance(a, ast.Lambda)]
+        if lams and any(v.lvl for v in allv):
+            # a lambda handed to map / sorted / ... together with receiver-derived data: it is applied to its elements
+            ev_ = joinall(allv).elem()
+            for lam in lams:
+                inner = st.copy()
+                for a in lam.args.posonlyargs + lam.args.args + lam.args.kwonlyargs:
+                    inner.env[a.arg] = ev_
+                self.ev(lam.body, inner)
         for a in list(e.args) + [k.value for k in e.keywords]:
             # a bound method of a receiver-derived object handed over as a callback: assume it gets called
             if isinstance(a, ast.Attribute) and not isinstance(a.ctx, ast.Store):
@@ -1281,7 +1302,11 @@ class Intra:
             if isinstance(base, ast.Call) and isinstance(base.func, ast.Name) and base.func.id == "super":
                 rv = self.name_val(self.selfname, st) if self.selfname else OTHERV
                 cands = self.prog.candidates(self.fi.cls, m, "super") if self.fi.cls else []
-                return self.apply(e, st, cands, rv, argvals, bound=True, label=f"super().{m}")
+                out = self.apply(e, st, cands, rv, argvals, bound=True, label=f"super().{m}")
+                if m == "__init__" and out.lvl and self.selfname and rv.lvl == OTHER:
+                    # the base constructor stored (part of) the argument into the object under construction
+                    st.env[self.selfname] = join(st.env.get(self.selfname, OTHERV), out.part(3))
+                return out
             # ClassName.m(x, ...)   /  module.f(...)
             if isinstance(base, ast.Name) and base.id not in st.env:
                 tgt = self.prog.lookup_name(self.mod, base.id)
@@ -1385,6 +1410,8 @@ class Intra:
 
     def method_call(self, e, st, m, basenode, rv, argvals, allv):
         if m in DECLARED_FRESH:
+            if rv.lvl and isinstance(basenode, ast.Attribute) and basenode.attr in SHARED_CONTAINER_FIELDS:
+                return rv.part(3)    # shallow copy of a map of the receiver: new container, same tensors
             return OTHERV
         if rv.lvl == OTHER:
             # other.m(..., <receiver>, ...): local container aliasing, else by-name resolution for the arguments
@@ -1414,9 +1441,17 @@ class Intra:
             cands = self.prog.candidates(self.fi.cls, m, "self")
         if not cands and isinstance(basenode, ast.Name) and basenode.id in self.vartype:
             cands = self.prog.candidates(self.vartype[basenode.id], m, "class")
+        if not cands and rv.depth == 3:
+            # a fresh holder (helper object built around the receiver, e.g. a belief propagation object): any class
+            cands = self.prog.candidates_any(m)
         if not cands:
             # a value reached from a tensor / network receiver is a tensor, a network or a builtin container
             cands = self.prog.candidates_any(m, tensorlike=True)
+        if not cands and m not in CONTAINER_MUTATORS and m not in ACCESSORS:
+            # ... or a helper object of the package whose method name is unique (e.g. PArray.add_function)
+            allc = self.prog.candidates_any(m)
+            if len(allc) == 1:
+                cands = allc
         if rv.depth in (1, 2) and m in CONTAINER_MUTATORS and not _unobservable(basenode):
             self.event("container-mutation", e, rv, note=f"`{ast.unparse(e.func)}(...)` on a part of the receiver")
         if cands:
@@ -1721,7 +1756,8 @@ def frame_obligations(root):
     for fi in subjects:
         its = [az.results[(fi.fid, p)] for p in _receivers(fi) if (fi.fid, p) in az.results]
         rule = _classify(its)
-        bad = [e for it in its for e in it.events if e.certain and e.lvl == ORIG]
+        bad = [e for it in its for e in it.events if e.certain and
+               (e.lvl == ORIG or (e.lvl == SAFE and not e.flags <= {"inplace"}))]
         unk = [e for it in its for e in it.events if (not e.certain) and e.lvl == ORIG]
         assumed = sorted(set().union(*[it.assumed for it in its])) if its else []
         all_assumed.update(assumed)
@@ -1731,8 +1767,11 @@ def frame_obligations(root):
             # third recognised pattern: builds a new object, never a mutating use of the receiver at all
             if all(not [e for e in it.events if e.lvl != OTHER] for it in its) and its:
                 rule = "constructs-new"
+        escapes = fi.name == "__init__" and any(s_.ret.lvl == ORIG for s_ in summ)
         if bad:
             status = "failed"
+        elif escapes:
+            status = "unknown"
         elif unk or not its:
             status = "unknown"
         elif rule == "neither":
@@ -1749,9 +1788,12 @@ def frame_obligations(root):
                       assumed_pure=assumed)
         model = None
         if bad:
-            model = dict(offending=[e.to_json() for e in bad[:6]], n_offending=len(bad))
+            model = dict(bad[0].to_json(), function=f"{fi.mod.rel}::{fi.qual}", receiver=[it.P for it in its],
+                         flag="inplace=False", all_offending=[e.to_json() for e in bad[:8]], n_offending=len(bad))
             detail["why"] = "receiver may be modified although the flag is false: " + "; ".join(
                 f"{e.file}:{e.line} `{e.src}` ({e.kind}: {e.note})" for e in bad[:3])
+        elif escapes:
+            detail["why"] = "the constructor keeps a reference to the ORIGINAL argument whatever the flag (no copy idiom)"
         elif unk:
             detail["why"] = "undecided: " + "; ".join(f"{e.file}:{e.line} `{e.src}` ({e.note})" for e in unk[:3])
         elif status == "unknown":
@@ -1784,16 +1826,14 @@ def frame_obligations(root):
         cls_name = fi.qual.split(".")[0] if "." in fi.qual else ""
         disp = fi.qual if name == fi.name else f"{cls_name}.{name}->{fi.qual}"
         obs.append(ObResult(id=f"{fi.mod.rel}::{disp}::leaf-summary-consistent", kind="frame",
-                            status="discharged" if ok else "failed", backend="ast", solver_s=0.0,
+                            status="discharged" if ok else "unknown", backend="ast", solver_s=0.0,
                             function=f"{fi.mod.rel}::{fi.qual}", line=fi.node.lineno, engine="E4",
-                            model=None if ok else dict(file=fi.mod.rel, line=fi.node.lineno,
-                                                       source=fi.mod.line(fi.node.lineno),
-                                                       note="declared leaf mutator: no write to its receiver found"),
                             detail=json.dumps(dict(declared=f"{name}: modifies-receiver", derived=how))))
     cdetail = dict(all=census, anchored_files=census_anch, fixpoint_rounds=rounds,
                    summaries_derived=len(az.summ), call_sites_checked=ncalls,
-                   assumed_pure=sorted(all_assumed), wall_s=round(time.time() - t0, 2))
-    bad_c = census["methods"] < 150
+                   assumed_pure=sorted(all_assumed), assumed_global=sorted(az.assumed_global),
+                   wall_s=round(time.time() - t0, 2))
+    bad_c = census_anch["methods"] < 150 or census["neither"] > 0 or rounds >= 10
     obs.append(ObResult(id=f"{PKG}::inplace-census", kind="frame", status="unknown" if bad_c else "discharged",
                         backend="ast", solver_s=0.0, function=f"{PKG}::inplace-census", engine="E4",
                         detail=json.dumps(cdetail)))
